@@ -13,5 +13,5 @@ fi
 ( cd /verif && ./verif.sh "$id" "$tier" ) 2>&1 | cut -c1-400 | tail -${TAIL:-15}
 rc=${PIPESTATUS[0]}
 git -C /repo checkout -q -- . ; git -C /repo clean -fdq -- internal toml runtime 2>/dev/null
-rm -f "$patch.rebased"
+rm -f "$patch.rebased"; git -C /verif checkout -q -- "evidence/$id.json" 2>/dev/null
 echo "check rc=$rc"
